@@ -620,8 +620,9 @@ func (t *Table) Update(input *types.UpdateItemInput) (map[string]*types.Item, er
 	}
 
 	if !ok {
-		// types creates a new item when the item does not exists
-		item = copyItem(input.Key)
+		// types creates a new item when the item does not exists,
+		// it starts from the key attributes only
+		item = t.KeySchema.getKeyItem(input.Key)
 	}
 
 	oldItem := copyItem(item)
